@@ -2309,42 +2309,69 @@ func c07ExpectBody(p *Prog, r *Report, b *bufInfo) {
 // boolReturnsDecide: the constant results a bool function can return when `decide` fixes the branch
 // conditions it knows (resolved through phis along the path) and every other branch may go either way.
 func boolReturnsDecide(p *Prog, fn *ssa.Function, decide func(cond ssa.Value) (val, ok bool)) (canTrue, canFalse bool) {
-	seen := map[[2]int]bool{}
-	var walk func(b, prev *ssa.BasicBlock, depth int)
-	resolve := func(v ssa.Value, b, prev *ssa.BasicBlock) (ssa.Value, bool) {
+	visits := map[[2]int]int{}
+	type env map[*ssa.Phi]ssa.Value
+	var walk func(b, prev *ssa.BasicBlock, e env, depth int)
+	resolve := func(v ssa.Value, e env) (ssa.Value, bool) {
 		neg := false
-		for i := 0; i < 4; i++ {
+		for i := 0; i < 8; i++ {
 			c2, pos := condStrip(v)
 			if !pos {
 				neg = !neg
 			}
 			v = c2
 			ph, isPhi := v.(*ssa.Phi)
-			if !isPhi || ph.Block() != b || prev == nil {
+			if !isPhi {
 				break
 			}
-			for j, pr := range b.Preds {
-				if pr == prev {
-					v = ph.Edges[j]
-				}
+			r, ok := e[ph]
+			if !ok {
+				break
 			}
+			v = r
 		}
 		return v, neg
 	}
-	walk = func(b, prev *ssa.BasicBlock, depth int) {
+	walk = func(b, prev *ssa.BasicBlock, e env, depth int) {
 		pi := -1
 		if prev != nil {
 			pi = prev.Index
 		}
-		if depth > 200 || seen[[2]int{b.Index, pi}] {
+		k := [2]int{b.Index, pi}
+		if depth > 400 || visits[k] >= 3 {
 			return
 		}
-		seen[[2]int{b.Index, pi}] = true
+		visits[k]++
+		defer func() { visits[k]-- }()
+		// the phis of this block take the value of the edge we came along
+		if prev != nil {
+			var ne env
+			for _, in := range b.Instrs {
+				ph, ok := in.(*ssa.Phi)
+				if !ok {
+					break
+				}
+				for j, pr := range b.Preds {
+					if pr == prev {
+						if ne == nil {
+							ne = env{}
+							for kk, vv := range e {
+								ne[kk] = vv
+							}
+						}
+						ne[ph] = ph.Edges[j]
+					}
+				}
+			}
+			if ne != nil {
+				e = ne
+			}
+		}
 		switch t := b.Instrs[len(b.Instrs)-1].(type) {
 		case *ssa.Return:
-			rv, neg := resolve(t.Results[0], b, prev)
-			if k, ok := constBool(rv); ok {
-				if k != neg {
+			rv, neg := resolve(t.Results[0], e)
+			if kc, ok := constBool(rv); ok {
+				if kc != neg {
 					canTrue = true
 				} else {
 					canFalse = true
@@ -2361,31 +2388,31 @@ func boolReturnsDecide(p *Prog, fn *ssa.Function, decide func(cond ssa.Value) (v
 			}
 			canTrue, canFalse = true, true
 		case *ssa.If:
-			cv, neg := resolve(t.Cond, b, prev)
-			if k, isC := constBool(cv); isC {
-				if k != neg {
-					walk(b.Succs[0], b, depth+1)
+			cv, neg := resolve(t.Cond, e)
+			if kc, isC := constBool(cv); isC {
+				if kc != neg {
+					walk(b.Succs[0], b, e, depth+1)
 				} else {
-					walk(b.Succs[1], b, depth+1)
+					walk(b.Succs[1], b, e, depth+1)
 				}
 				return
 			}
 			if val, ok := decide(cv); ok {
 				if val != neg {
-					walk(b.Succs[0], b, depth+1)
+					walk(b.Succs[0], b, e, depth+1)
 				} else {
-					walk(b.Succs[1], b, depth+1)
+					walk(b.Succs[1], b, e, depth+1)
 				}
 				return
 			}
-			walk(b.Succs[0], b, depth+1)
-			walk(b.Succs[1], b, depth+1)
+			walk(b.Succs[0], b, e, depth+1)
+			walk(b.Succs[1], b, e, depth+1)
 		case *ssa.Jump:
-			walk(b.Succs[0], b, depth+1)
+			walk(b.Succs[0], b, e, depth+1)
 		}
 	}
 	if len(fn.Blocks) > 0 {
-		walk(fn.Blocks[0], nil, 0)
+		walk(fn.Blocks[0], nil, env{}, 0)
 	}
 	return
 }
